@@ -23,7 +23,11 @@ static USER_ID: AtomicU32 = AtomicU32::new(1);
 const MAX_USERS: usize = u32::MAX as usize;
 
 impl System {
-    pub(crate) async fn load_users(&mut self, users: Vec<UserState>) -> Result<(), IggyError> {
+    pub(crate) async fn load_users(
+        &mut self,
+        users: Vec<UserState>,
+        last_user_id: u32,
+    ) -> Result<(), IggyError> {
         info!("Loading users...");
         if users.is_empty() {
             info!("No users found, creating the root user...");
@@ -76,7 +80,10 @@ impl System {
         }
 
         let users_count = self.users.len();
-        let current_user_id = self.users.keys().max().unwrap_or(&1);
+        // Continue after the last ID ever assigned (as the state replay counts them), not after the
+        // highest surviving one: otherwise a restart makes the next user reuse a deleted user's ID
+        // and the replayed state disagrees with the running server.
+        let current_user_id = (*self.users.keys().max().unwrap_or(&1)).max(last_user_id);
         USER_ID.store(current_user_id + 1, Ordering::SeqCst);
         self.permissioner
             .init(&self.users.values().collect::<Vec<&User>>());
